@@ -2,7 +2,9 @@
 """Print the prompt for an independent seeding agent: property text only + its scratch worktree."""
 import json, sys
 pid, wt = sys.argv[1], sys.argv[2]
+round2 = len(sys.argv) > 3 and sys.argv[3] == "2"
 p = next(json.loads(l) for l in open('/verif/properties.jsonl') if json.loads(l)['id'] == pid)
+EXTRA = ("ROUND 2: an earlier round already produced the obvious candidates (a cache not cleared on update, a wrong axis/stride, a dropped transpose/conjugate, a stale flag, an off-by-one layer). Be more subtle this time: prefer defects that only manifest for unusual-but-legitimate VALUES (very large/small magnitudes, exact zeros, ties, integer or float32 dtypes, Fortran-ordered or non-contiguous arrays, negative steps, empty or length-1 inputs), for rarely used OPTIONS or option COMBINATIONS, or only after THREE OR MORE calls on the same object (e.g. state that leaks across response/sensitivity/reset cycles, or between two objects that share something). Avoid repeating the mechanisms listed above." if round2 else "")
 print(f"""You are testing how well a verification harness (which you cannot see) detects regressions in the open-source Python library pyMOTO (a modular topology-optimization framework: Signals, Modules, Networks, FE assembly, filters, linear solvers, optimizers). You work ONLY inside your own scratch git worktree of the repository at {wt} (already created, HEAD = current state). Never read or write anything under /verif or /repo, and do not look for other people's checks: your changes must be independent of them.
 
 PROPERTY {pid} — "{p['title']}":
@@ -15,6 +17,7 @@ YOUR TASK: produce TWO different, realistic source changes ("seeded defects") to
   (b) still lets the repository's existing test suite pass exactly as before (the tests that pass on the unmodified tree must still pass; some tests fail already on the unmodified tree for environment reasons such as missing sympy — ignore those), and
   (c) needs something SPECIFIC to manifest: a particular option combination, an unusual but legitimate input (e.g. one-element-wide grid, complex data, block right-hand side, zero entry), a multi-step call sequence (second call on the same object, call after reset/update), or two cooperating sites that each look harmless alone. Do NOT make changes that ordinary use or the simplest call would expose at once, and do not make changes that merely crash on import. Prefer the kind of slip a maintainer could really make in a refactoring (wrong index/axis, stale cache not cleared, in-place mutation of an argument, wrong branch for one mode, dropped conjugate/transpose, off-by-one at a boundary, dtype promotion lost).
 The two changes should use different mechanisms / code sites.
+{EXTRA}
 
 HOW TO WORK:
 - Read the relevant code under {wt}/pymoto and the tests under {wt}/tests to see what the suite does NOT exercise.
